@@ -15,6 +15,7 @@ import (
 	"github.com/nyaruka/goflow/excellent/functions"
 	"github.com/nyaruka/goflow/excellent/refactor"
 	"github.com/nyaruka/goflow/excellent/types"
+	"github.com/shopspring/decimal"
 
 	"verif/internal/fw"
 	"verif/internal/gen"
@@ -38,13 +39,13 @@ func (p *c11) Rule() string {
 	return fmt.Sprintf("a case = %d expression texts + %d template texts derived from antlr/Excellent3.g4 (all operators with mixed precedence/associativity, unary-minus chains, redundant/missing parentheses, dot/index lookups with names, integers and quoted keys, calls of every deterministic registered function, lambdas, every spelling of text/number/boolean/null literals, random case and white space; templates add body text, '@@' and @identifiers), each evaluated in %d random (environment, context) pairs. For every text the real parser accepts: print, re-parse, print again, evaluate original and printed tree; for every template: refactor.Template with an identity transformation (keeping and re-printing) and with ContextRefRename(a -> b.c). An expression is non-trivial when it parsed and its tree has >= 2 operators or a lookup/call; a case is non-trivial when it holds such an expression; distinct = distinct case texts.", c11ExprsPerCase, c11TplsPerCase, c11Contexts)
 }
 func (p *c11) Directed() []string {
-	return []string{"associativity", "literals", "lookups-lambdas", "refactor-tests", "known:trailing-backslash", "known:cherokee-identifier", "known:rename-lambda-capture", "known:rename-casefold"}
+	return []string{"associativity", "literals", "lookups-lambdas", "refactor-tests", "known:integer-dot-chain", "known:number-trailing-zeros", "known:trailing-backslash", "known:cherokee-identifier", "known:rename-lambda-capture", "known:rename-casefold"}
 }
 func (p *c11) NumGenerated(tier string) int {
 	if tier == "thorough" {
-		return 24000
+		return 48000
 	}
-	return 480
+	return 960
 }
 func (p *c11) BatchSize(tier string) int {
 	if tier == "thorough" {
@@ -77,8 +78,9 @@ type c11run struct {
 }
 
 type failure struct {
-	kind string // print-panic | reparse-panic | unparseable | not-fixed-point | value | refs | refactor-panic
-	what string
+	kind   string // print-panic | reparse-panic | unparseable | not-fixed-point | value | refs | refactor-panic
+	detail string // for refs: what differs
+	what   string
 	wit  map[string]any
 	// for template failures: did the scanner split original and rewritten template into a different
 	// number of tokens?
@@ -88,6 +90,9 @@ type failure struct {
 func (p *c11) Run(c fw.Case) fw.Result {
 	res := fw.Result{}
 	r := fw.NewRand(c.Seed, "C11", c.Index)
+	if c.Directed != "" {
+		r = fw.NewRand(0, "C11", c.Index) // the directed corpus does not depend on the seed
+	}
 	fixClock()
 	k := &c11run{res: &res, r: r}
 	cr := r.Fork("contexts")
@@ -168,14 +173,19 @@ func (k *c11run) checkExpr(text string) {
 // exprFailure runs the three expression clauses on one parseable text. count=false is used while
 // shrinking / classifying (no counters).
 func (k *c11run) exprFailure(text string, count bool) (*failure, string) {
+	root, err, pn := safeParse(text)
+	if pn != nil || err != nil || root == nil {
+		return nil, ""
+	}
+	return k.nodeFailure(root, text, count)
+}
+
+// nodeFailure is exprFailure on a tree (a parsed text, or a sub-term of one while shrinking)
+func (k *c11run) nodeFailure(root excellent.Expression, text string, count bool) (*failure, string) {
 	cnt := func(key string, n int64) {
 		if count {
 			k.res.Count(key, n)
 		}
-	}
-	root, err, pn := safeParse(text)
-	if pn != nil || err != nil || root == nil {
-		return nil, ""
 	}
 	p1, pn := safeString(root)
 	if pn != nil {
@@ -288,6 +298,46 @@ var repairLowercase = repair{"identifier-lowercase-unknown-to-lexer", func(root 
 	return ch
 }}
 
+func allDigits(s string) bool {
+	if s == "" {
+		return false
+	}
+	for i := 0; i < len(s); i++ {
+		if s[i] < '0' || s[i] > '9' {
+			return false
+		}
+	}
+	return true
+}
+
+var repairDotChain = repair{"integer-dot-lookup-chain", func(root excellent.Expression) bool {
+	ch := false
+	walk(root, func(n excellent.Expression) {
+		if d, ok := n.(*excellent.DotLookup); ok && allDigits(d.Lookup) {
+			if c, ok := d.Container.(*excellent.DotLookup); ok && allDigits(c.Lookup) {
+				c.Lookup = "n" + c.Lookup
+				ch = true
+			}
+		}
+	})
+	return ch
+}}
+
+// a number literal is printed without its trailing zeros (1.50 -> 1.5): same number, other
+// coefficient/exponent pair, and decimal.Pow's precision for a fractional power depends on that pair
+var repairTrailingZeros = repair{"number-literal-trailing-zeros", func(root excellent.Expression) bool {
+	ch := false
+	walk(root, func(n excellent.Expression) {
+		if t, ok := n.(*excellent.NumberLiteral); ok {
+			if d, err := decimal.NewFromString(t.Value.Describe()); err == nil && d.Exponent() != t.Value.Native().Exponent() {
+				t.Value = types.NewXNumber(d)
+				ch = true
+			}
+		}
+	})
+	return ch
+}}
+
 // applyRepair parses text afresh, mutates the tree and prints it.
 func applyRepair(text string, rp repair) (string, bool) {
 	root, err, pn := safeParse(text)
@@ -307,10 +357,98 @@ func applyRepair(text string, rp repair) (string, bool) {
 	return s, true
 }
 
-// classify names the cause of a failure of the given kind on expression text `text`:
-// a known cause confirmed by a repair experiment, else the shape of the smallest sub-term that
-// still fails the same way (sub-terms are taken from the tree and printed).
-func classify(text, kind string, check func(exprText string) *failure, repairs []repair) (class string, minimal string) {
+// nodeAt re-parses text and returns the idx-th node (parents first) of the fresh tree
+func nodeAt(text string, idx int) (root, node excellent.Expression) {
+	root, err, pn := safeParse(text)
+	if err != nil || pn != nil {
+		return nil, nil
+	}
+	ns := allNodes(root)
+	if idx >= len(ns) {
+		return nil, nil
+	}
+	return root, ns[idx]
+}
+
+// classifyExpr names the cause of an expression-level failure of the given kind: a known cause
+// confirmed by a repair experiment on the tree, else the shape of the smallest sub-term (taken from
+// the tree, so that it need not be re-parsed from its own — possibly unparseable — printed form)
+// that still fails the same way.
+func (k *c11run) classifyExpr(text, kind string, repairs []repair) (class string, minimal string) {
+	failsNode := func(n excellent.Expression) bool {
+		f, _ := k.nodeFailure(n, "", false)
+		return f != nil && f.kind == kind
+	}
+	// smallest failing sub-term
+	root, err, pn := safeParse(text)
+	if err != nil || pn != nil {
+		return "unclassified", text
+	}
+	nodes := allNodes(root)
+	type cand struct {
+		idx int
+		n   int
+	}
+	var cands []cand
+	for i, n := range nodes {
+		if s, pn := safeString(n); pn == nil {
+			cands = append(cands, cand{i, len(s)})
+		}
+	}
+	sort.SliceStable(cands, func(i, j int) bool { return cands[i].n < cands[j].n })
+	minIdx := 0
+	for i, c := range cands {
+		if i >= 80 {
+			break
+		}
+		if c.idx != 0 && failsNode(nodes[c.idx]) {
+			minIdx = c.idx
+			break
+		}
+	}
+	minimal, _ = safeString(nodes[minIdx])
+	// repair experiments on the minimal term, then on the whole expression
+	for _, idx := range []int{minIdx, 0} {
+		for _, rp := range repairs {
+			_, n := nodeAt(text, idx)
+			if n == nil || !rp.apply(n) {
+				continue
+			}
+			if !failsNode(n) {
+				return rp.name, minimal
+			}
+		}
+	}
+	return "term:" + shape(nodes[minIdx]), minimal
+}
+
+var exprRepairs = []repair{repairBackslash, repairLowercase, repairDotChain, repairTrailingZeros}
+
+func (k *c11run) reportExpr(text string, f *failure) {
+	class, minimal := k.classifyExpr(text, f.kind, exprRepairs)
+	f.wit["minimal_failing_term_printed"] = minimal
+	sig := "expression|" + f.kind + "|" + class
+	switch class {
+	case repairBackslash.name:
+		sig = "roundtrip|" + class + "|lexer"
+		f.what += " — a text value ending in a backslash is printed as \"…\\\\\" and the lexer's TEXT rule ('\"' (~[\"] | '\\\\\"')* '\"') then matches across the closing quote up to the next quote"
+	case repairLowercase.name:
+		sig = "roundtrip|" + class
+		f.what += " — ContextReference.String() lower-cases the name with Go's Unicode tables; the lower-case letter is not in the lexer's NAME alphabet"
+	case repairDotChain.name:
+		sig = "roundtrip|" + class
+		f.what += " — DotLookup.String() prints x . 3 . 1 as x.3.1, which the lexer reads as x . DECIMAL(3.1)"
+	case repairTrailingZeros.name:
+		sig = "roundtrip|" + class
+		f.what += " — NumberLiteral.String() drops trailing zeros (0.10 -> 0.1) and the result of an operator (^ with a fractional exponent) depends on the coefficient/exponent pair of its decimal operand"
+	}
+	k.res.Count("violations.expression", 1)
+	k.res.Violate(sig, f.what, f.wit)
+}
+
+// classifyToken (template level): the token's expression passes the expression-level clauses, so
+// sub-terms can be printed and wrapped into @(…) on their own.
+func classifyToken(text, kind string, check func(exprText string) *failure, repairs []repair) (class string, minimal string) {
 	fails := func(t string) bool {
 		f := check(t)
 		return f != nil && f.kind == kind
@@ -324,54 +462,33 @@ func classify(text, kind string, check func(exprText string) *failure, repairs [
 	if err != nil || pn != nil {
 		return "unclassified", text
 	}
-	type cand struct {
-		node excellent.Expression
-		text string
-	}
-	var cands []cand
+	var cands []string
 	for _, n := range allNodes(root)[1:] {
 		if s, pn := safeString(n); pn == nil {
-			cands = append(cands, cand{n, s})
+			cands = append(cands, s)
 		}
 	}
-	sort.SliceStable(cands, func(i, j int) bool { return len(cands[i].text) < len(cands[j].text) })
+	sort.SliceStable(cands, func(i, j int) bool { return len(cands[i]) < len(cands[j]) })
 	tried := 0
 	for _, c := range cands {
 		if tried >= 60 {
 			break
 		}
-		if _, err, pn := safeParse(c.text); err != nil || pn != nil {
+		n, err, pn := safeParse(c)
+		if err != nil || pn != nil {
 			continue
 		}
 		tried++
-		if fails(c.text) {
-			// the printed sub-term may itself be attributable to a known cause
+		if fails(c) {
 			for _, rp := range repairs {
-				if t, ok := applyRepair(c.text, rp); ok && !fails(t) {
-					return rp.name, c.text
+				if t, ok := applyRepair(c, rp); ok && !fails(t) {
+					return rp.name, c
 				}
 			}
-			n, _, _ := safeParse(c.text)
-			return "term:" + shape(n), c.text
+			return "term:" + shape(n), c
 		}
 	}
 	return "term:" + shape(root), text
-}
-
-func (k *c11run) reportExpr(text string, f *failure) {
-	class, minimal := classify(text, f.kind, func(t string) *failure { ff, _ := k.exprFailure(t, false); return ff }, []repair{repairBackslash, repairLowercase})
-	f.wit["minimal_failing_term"] = minimal
-	sig := "expression|" + f.kind + "|" + class
-	switch class {
-	case repairBackslash.name:
-		sig = "roundtrip|" + class + "|lexer"
-		f.what += " — a text value ending in a backslash is printed as \"…\\\\\" and the lexer's TEXT rule ('\"' (~[\"] | '\\\\\"')* '\"') then matches across the closing quote up to the next quote"
-	case repairLowercase.name:
-		sig = "roundtrip|" + class
-		f.what += " — ContextReference.String() lower-cases the name with Go's Unicode tables; the lower-case letter is not in the lexer's NAME alphabet"
-	}
-	k.res.Count("violations.expression", 1)
-	k.res.Violate(sig, f.what, f.wit)
 }
 
 // templates -------------------------------------------------------------------------------------
@@ -574,7 +691,7 @@ func (k *c11run) chooseRename(tpl string, toks []token, directed string) (from, 
 }
 
 // renamedContext is ctx[b.c := ctx[a]] without a.
-func renamedContext(ctx *types.XObject, from, to string) *types.XObject {
+func renamedContext(ctx *types.XObject, from, to string, dropFrom bool) *types.XObject {
 	parts := strings.SplitN(strings.ToLower(to), ".", 2)
 	m := map[string]types.XValue{}
 	var moved types.XValue
@@ -583,7 +700,9 @@ func renamedContext(ctx *types.XObject, from, to string) *types.XObject {
 		v, _ := ctx.Get(key)
 		if strings.ToLower(key) == strings.ToLower(from) {
 			moved, had = v, true
-			continue
+			if dropFrom {
+				continue
+			}
 		}
 		m[key] = v
 	}
@@ -602,8 +721,16 @@ func (k *c11run) tplRename(tpl, from, to string, count bool) *failure {
 	}
 	lfrom := strings.ToLower(from)
 	lto := strings.SplitN(strings.ToLower(to), ".", 2)[0]
-	newTops := renamedContext(k.ctxs[0].ctx, from, to).Properties()
 	t0, _ := scanTokens(tpl, k.tops)
+	// a token that does not parse cannot be renamed and is kept verbatim; its "@a…" must then still
+	// find a as a top-level name, so a is only dropped from the new context when everything parsed
+	unparseable := false
+	for _, t := range exprTokens(t0) {
+		if _, err, pn := safeParse(t.text); err != nil || pn != nil {
+			unparseable = true
+		}
+	}
+	newTops := renamedContext(k.ctxs[0].ctx, from, to, !unparseable).Properties()
 	t1, _ := scanTokens(out, newTops)
 	e0, e1 := exprTokens(t0), exprTokens(t1)
 	renamed := 0
@@ -648,12 +775,16 @@ func (k *c11run) tplRename(tpl, from, to string, count bool) *failure {
 				wit["rewritten_expression"] = e1[i].text
 				wit["references_expected"] = want
 				wit["references_found"] = got
-				return &failure{kind: "refs", what: "ContextRefRename changed the multiset of context references other than by renaming a to b", wit: wit}
+				detail := "other-references-changed"
+				if contains(got, lfrom) {
+					detail = "reference-not-renamed"
+				}
+				return &failure{kind: "refs", detail: detail, what: "ContextRefRename changed the multiset of context references other than by renaming a to b", wit: wit}
 			}
 		}
 	}
 	for i, ec := range k.ctxs {
-		ctx2 := renamedContext(ec.ctx, from, to)
+		ctx2 := renamedContext(ec.ctx, from, to, !unparseable)
 		o1 := evalTemplate(ec.env, ec.ctx, tpl)
 		o2 := evalTemplate(ec.env, ctx2, out)
 		if count {
@@ -715,6 +846,15 @@ func renameRepairs(from, to string) []repair {
 	return []repair{capture, casefold}
 }
 
+func contains(xs []string, x string) bool {
+	for _, v := range xs {
+		if v == x {
+			return true
+		}
+	}
+	return false
+}
+
 // renameFree renames the free occurrences of a lambda parameter in its body
 func renameFree(e excellent.Expression, param, fresh string) {
 	switch t := e.(type) {
@@ -755,11 +895,20 @@ func (k *c11run) reportTemplate(clause, tpl string, f *failure, check func(tpl s
 	}
 	class, minimal := "multi-token", tpl
 	if tokText != "" {
-		class, minimal = classify(tokText, f.kind, func(t string) *failure { return check("@(" + t + ")") }, append(append([]repair{}, extra...), repairBackslash, repairLowercase))
+		// a token that already fails the expression-level clauses explains the template-level failure
+		if ef, _ := k.exprFailure(tokText, false); ef != nil {
+			ef.wit["seen_through"] = map[string]any{"clause": clause, "template": tpl, "what": f.what}
+			k.reportExpr(tokText, ef)
+			return
+		}
+		class, minimal = classifyToken(tokText, f.kind, func(t string) *failure { return check("@(" + t + ")") }, append(append([]repair{}, extra...), exprRepairs...))
 		minimal = "@(" + minimal + ")"
 	}
 	f.wit["minimal_failing_template"] = minimal
 	f.wit["clause"] = clause
+	if f.kind == "refs" && (strings.HasPrefix(class, "term:") || class == "multi-token") {
+		class = f.detail // which sub-term shows it says nothing about a wrong set of names
+	}
 	sig := "refactor|" + clause + "|" + f.kind + "|" + class
 	switch class {
 	case repairBackslash.name:
@@ -816,7 +965,7 @@ func c11Directed(name string) (exprs, tpls []string) {
 		tpls = []string{`@("a\"b")`, `@("\w+") @("it\'s")`, "@(\"a\nb\")", `@(007) @(1.50) @(TRUE) @(Null)`, `say @("é\U0001F600")!`, `@("(") @(")") @(")(")`, `@("@contact") @@contact`}
 	case "lookups-lambdas":
 		exprs = []string{
-			`obj.a`, `OBJ.A`, `Obj . a`, `obj["a"]`, `obj [ "a" ]`, `obj["A"]`, `nums.1`, `nums["1"]`, `nums[1]`, `nums.2 + 1`, `arr.0`, `arr[0]`, `arr[-1]`, `arr . 3 . 1`, `arr[3][1]`, `arr[3].1`, `arr.3[1]`,
+			`obj.a`, `OBJ.A`, `Obj . a`, `obj["a"]`, `obj [ "a" ]`, `obj["A"]`, `nums.1`, `nums["1"]`, `nums[1]`, `nums.2 + 1`, `arr.0`, `arr[0]`, `arr[-1]`, `arr . 3 .b`, `arr[3][1]`, `arr[3].1`, `arr.3[1]`,
 			`contact.fields["age"] + 1`, `results["q1"].value`, `results.q1["value"]`, `webhook.b.c[2].d`, `webhook["b"]["c"][2]["d"]`, `(obj).a`, `(obj)["a"]`, `((obj)).b.c`,
 			`array(1,2)[0]`, `array(1,2).1`, `object("a", 1).a`, `object("a", 1)["a"]`, `upper(contact.name)`, `UPPER("a")`, `Upper ( "a" )`, `fn("a")`, `(fn)("a")`, `FN("a")`, `array(upper)[0]("abc")`,
 			`contact`, `contact.name & ""`, `dflt`, `dflt + 1`, `dflt.x`, `contact.missing`, `contact["missing"]`, `missing`, `missing.x`, `arr[10]`, `arr["x"]`, `obj[1]`, `obj[null]`, `arr[foo]`, `arr[1 - 1]`,
@@ -832,6 +981,12 @@ func c11Directed(name string) (exprs, tpls []string) {
 			`@(AND("x"="y", "x"!="y"))`, `@(AND(1>2, 3<4, 5>=6, 7<=8))`, `@(FOO_Func(x, y))`, `@(1 / ) @(1+2)`, `test@example.com`, `test@@example.com`,
 			`@foo`, ` @foo @foo `, `@(foo.uuid + 1)`, `@(Upper(Foo))`, `@webhook`, `@( webhook[0] )`, `@( 1 +  2)`,
 			`@@foo @@(1) @foo`, `@foo.`, `@foo.bar@foo`, `@(foo`, `@("abc)`, `@(foo))`, `@ @. @@ @`, `a@b.com @(foo)@foo`, `@(foo & FOO & Foo) @FOO @Foo.x`, `@(upper(foo) & foo.a & foo["a"] & foo[0])`}
+	case "known:integer-dot-chain":
+		exprs = []string{`arr . 3 . 1`, `arr.3 .1`, `webhook.b.c.2 . 0`, `-arr.3 . 1 ^ 2`, `upper(arr .3 .1)`}
+		tpls = []string{`@(arr.3 .1) and @arr.3`}
+	case "known:number-trailing-zeros":
+		exprs = []string{`0.10 ^ 0.5`, `(1.50) ^ 0.5`, `2.0 ^ 0.5`, `text(10.10 ^ 0.5)`}
+		tpls = []string{`@(0.10 ^ 0.5)`}
 	case "known:trailing-backslash":
 		exprs = []string{`"a\u005c" & "b"`, `upper("\x5c") & "!"`, `obj["a\134"] & ""`, `"\\" & 1`, `array("\\", "x")`, `"\U0000005c" = "\\"`}
 		tpls = []string{`x @("a\u005c") y`, `@("q\u005c" & foo)`, `@(upper("\x5c"))`}
